@@ -1,5 +1,5 @@
 """Shared pieces of the Consensus.tla-based checks (C01, C15): cfg generation, script conversion, replay."""
-import json, os, sys
+import json, shutil, os, sys
 sys.path.insert(0, os.path.join(os.path.dirname(os.path.abspath(__file__)), "..", "lib"))
 import vlib
 
@@ -56,15 +56,27 @@ def script_from_lasts(sid, lasts):
 
 
 def replay(bftsim, scripts, workdir, name, env=None):
-    """run scripts through the real code; returns list of per-script line lists"""
-    inp = os.path.join(workdir, name + ".scripts.ndjson")
+    """run scripts through the real code (in parallel shards; every script is independent); returns list of per-script line lists"""
+    from concurrent.futures import ThreadPoolExecutor
     out = os.path.join(workdir, name + ".trace.ndjson")
-    with open(inp, "w") as fh:
-        for s in scripts:
-            fh.write(json.dumps(s) + "\n")
-    p = vlib.sh([bftsim, "replay", inp, out], timeout=3000, check=False, env=dict(vlib.GOENV, **env) if env else None)
-    if p.returncode != 0:
-        raise vlib.Infra("bftsim failed: " + p.stdout[-2000:])
+    shards = max(1, min(8, len(scripts) // 20))
+    parts = []
+    for k in range(shards):
+        inp = os.path.join(workdir, "%s.scripts.%d.ndjson" % (name, k))
+        with open(inp, "w") as fh:
+            for s in scripts[k::shards]:
+                fh.write(json.dumps(s) + "\n")
+        parts.append((inp, os.path.join(workdir, "%s.trace.%d.ndjson" % (name, k))))
+    def one(io):
+        return vlib.sh([bftsim, "replay", io[0], io[1]], timeout=6000, check=False, env=dict(vlib.GOENV, **env) if env else None)
+    with ThreadPoolExecutor(max_workers=shards) as ex:
+        for p in ex.map(one, parts):
+            if p.returncode != 0:
+                raise vlib.Infra("bftsim failed: " + p.stdout[-2000:])
+    with open(out, "w") as fh:
+        for _, o in parts:
+            with open(o) as src:
+                shutil.copyfileobj(src, fh)
     runs, cur = [], []
     with open(out) as fh:
         for line in fh:
